@@ -234,6 +234,8 @@ class Engine:
         self.encoded = set()
         self.solver = z3.SolverFor('QF_BV')
         self.solver.set('timeout', feas_timeout_ms)
+        self.feas_timeout_ms = feas_timeout_ms
+        self.uses_fp = False
         self.n_assumed = 0
         self.n_defs = 0
         self.derives = set()
@@ -775,6 +777,20 @@ class Engine:
                 if dst.w < src.w:
                     return Sc(z3.Extract(dst.w - 1, 0, v.t))
                 return Sc(z3.SignExt(dst.w - src.w, v.t) if src.signed else z3.ZeroExt(dst.w - src.w, v.t))
+            if kind in ('IntToFloat', 'FloatToInt', 'FloatToFloat'):
+                # integers become IEEE 754 values exactly as `as` does (round to nearest, ties to even); the other float casts are not modelled
+                fs = {'f32': z3.Float32(), 'f64': z3.Float64()}.get(rv[2].strip())
+                src = INTS.get(self.operand_type(body, rv[1]))
+                if kind != 'IntToFloat' or fs is None or src is None or not isinstance(v, Sc) or z3.is_bool(v.t):
+                    raise Unsupported('%s cast %r' % (kind, rv,))
+                if not getattr(self, 'uses_fp', False):
+                    # floating-point terms leave QF_BV: from here on the feasibility solver and the discharging solvers are general ones
+                    self.uses_fp = True
+                    self.solver = z3.Solver()
+                    self.solver.set('timeout', self.feas_timeout_ms)
+                    self.n_assumed = 0
+                    self.n_defs = 0
+                return Sc(z3.fpSignedToFP(z3.RNE(), v.t, fs) if src.signed else z3.fpUnsignedToFP(z3.RNE(), v.t, fs))
             return v            # Transmute / PtrToPtr / PointerCoercion / PointerExposeProvenance: representation unchanged here
         if k == 'tuple':
             vals = [self.operand(body, st, o) for o in rv[1]]
